@@ -10,6 +10,15 @@ fn arg(args: &[String], name: &str) -> Option<String> {
 
 fn main() {
     let args: Vec<String> = std::env::args().collect();
+    if args.len() >= 2 && args[1] == "craftz" {
+        // one-off helper: show which ZUC add31-boundary (key, IV) pairs the search finds
+        let mut rng = gen::Rng(5);
+        for pos in 1..=6usize { for target in [0x7fff_ffffu64, 0x8000_0000, 0x8000_0001] {
+            let r = suites::zuc::craft_add31(&mut rng, pos, target);
+            println!("pos {} target {:x}: {}", pos, target, r.map(|(k, v)| format!("{} {}", hex::encode(k), hex::encode(v))).unwrap_or("none".into()));
+        } }
+        return;
+    }
     if args.len() >= 3 && args[1] == "findk" {
         // one-off helper: search ephemeral scalars whose [k]G has `zeros` leading zero bytes in x / y (used to pre-compute driver constants)
         let zeros: usize = args[2].parse().unwrap();
